@@ -151,7 +151,7 @@ class BlockAutoregressiveNetwork(AbstractBijection):
     def transform(self, x, condition=None):
         for i, (layer, _) in enumerate(self.layers[:-1]):
             x = layer(x)
-            if i == 0 and condition is not None:
+            if i == 0 and self.cond_linear is not None:
                 assert self.cond_linear is not None
                 x += self.cond_linear(condition)
             x = eqx.filter_vmap(self.activation.transform)(x)
@@ -161,7 +161,7 @@ class BlockAutoregressiveNetwork(AbstractBijection):
         log_dets_3ds = []
         for i, (linear, log_jacobian_fn) in enumerate(self.layers[:-1]):
             x = linear(x)
-            if i == 0 and condition is not None:
+            if i == 0 and self.cond_linear is not None:
                 assert self.cond_linear is not None
                 x += self.cond_linear(condition)
             log_dets_3ds.append(log_jacobian_fn(linear))
